@@ -116,6 +116,7 @@ class Registry:
         return []
 
     BASE_GROUPS = ('process',)    # contracts every group builds on (ProcessStatus, C11)
+    BASE_MODULES = ('contracts.assumed_repo', 'contracts.assumed_transport')
 
     def cross_group_ok(self, cur, con):
         return con.target in cur.attrs.get('use_contracts', ())
@@ -131,20 +132,19 @@ class Registry:
             return None
         cur = self.current
         fs = self.facets.get(fi.qualname, [])
-        if cur is not None and len(fs) > 1:
-            # several contracts exist for this callee (written for different property groups, each verified on its own):
-            # the proof of `cur` uses the one of its own group (its preconditions are the ones its author established at
-            # the call sites), else the primary one.  Any single verified contract is sound at a call site.
+        if cur is not None and (len(fs) > 1 or self.group_of(con) != self.group_of(cur)):
+            # Contracts are written per property group, each group verified on its own with the preconditions its author
+            # established at the call sites.  A call site uses: the callee contract of the caller's own file, else of its
+            # group, else a shared one (ProcessStatus contracts of C11, general transport / Supervisor wrappers), else
+            # one the caller names in `use_contracts`; otherwise the caller executes the callee's REAL code (inlining is
+            # always sound).  Any single contract is sound at a call site (its pre is an obligation there).
             g = self.group_of(cur)
             same = ([c for c in fs if c.module == cur.module] or [c for c in fs if self.group_of(c) == g]
-                    or [c for c in fs if self.group_of(c) in self.BASE_GROUPS])
-            if same:
-                con = next((c for c in same if not c.assumed), same[0])
-        if cur is not None and self.group_of(con) != self.group_of(cur) and self.group_of(con) not in self.BASE_GROUPS \
-                and self.group_of(cur) in self.GROUPS.values() and not con.assumed and not self.cross_group_ok(cur, con):
-            # a VERIFIED contract written by another property group, with preconditions this caller's proof was not built
-            # for: the caller executes the real code of the callee instead (inlining is always sound)
-            return None
+                    or [c for c in fs if self.group_of(c) in self.BASE_GROUPS or c.module in self.BASE_MODULES]
+                    or [c for c in fs if c.target in cur.attrs.get('use_contracts', ())])
+            if not same:
+                return None
+            con = next((c for c in same if not c.assumed), same[0])
         if cur is not None:
             if fi.qualname in cur.inline:
                 return None
